@@ -45,9 +45,34 @@ def gen_input(rs, pyrng, nmax):
     n = pyrng.randint(1, nmax)
     k = pyrng.randint(0 if pyrng.random() < 0.1 else 1, max(1, min(4, n)))
     rdt = pyrng.choice(DTYPES)
-    kind = pyrng.choice(["none", "copy", "biorth", "generic", "orth"])
+    kind = pyrng.choice(["none", "copy", "biorth", "generic", "orth", "near20", "near30", "near20", "near30"])
     R = rand_arr(rs, (n, k), rdt)
     L = None
+    if kind.startswith("near") and k:
+        # L = R + 2^-20 X or R + 2^-30 X (dyadic, exactly representable): numerically "almost" R, but the
+        # operator is 1 - R L^H, not 1 - R R^H, and P.H is not P
+        cx = pyrng.random() < 0.5
+        R = (rs.integers(-2, 3, size=(n, k)) + (1j * rs.integers(-2, 3, size=(n, k)) if cx else 0)).astype(np.complex128 if cx else np.float64)
+        if not np.any(R):
+            R[0, 0] = 1
+        X = rs.integers(-4, 5, size=(n, k)) + (1j * rs.integers(-4, 5, size=(n, k)) if (cx or pyrng.random() < 0.4) else 0)
+        if kind == "near20":
+            X = X * (R != 0)  # stays within 1e-5 |R_ij| of R
+        if pyrng.random() < 0.4 and n > k:  # exact biorthogonality: orthonormal unit columns, X orthogonal to them
+            R = np.zeros((n, k), dtype=R.dtype)
+            rows = pyrng.sample(range(n), k)
+            for j, r in enumerate(rows):
+                R[r, j] = pyrng.choice([1, -1])
+            X = rs.integers(-4, 5, size=(n, k)) + 0j
+            X[rows, :] = 0
+            kind += "_biorth"
+        if not np.any(X):
+            X[np.nonzero(R)[0][0] if "biorth" not in kind else [i for i in range(n) if i not in rows][0], 0] = 3
+        L = R + X / 2.0 ** (20 if kind.startswith("near20") else 30)
+        if not np.any(np.imag(L)):
+            L = np.real(L).astype(np.float64)
+    elif kind.startswith("near"):
+        kind = "none"
     if kind == "orth" and k and rdt != "int64":
         R = np.linalg.qr(R.astype(np.complex128 if "complex" in rdt else np.float64))[0][:, :k].astype(rdt)
     elif kind == "copy":
@@ -66,6 +91,14 @@ def gen_input(rs, pyrng, nmax):
             kind = "none"
     m = pyrng.randint(1, 3)
     xdt = pyrng.choice(DTYPES)
+    dbl = ["float64", "complex128", "int64"]
+    if kind.startswith("near"):  # double precision only: the comparison tolerance is 1e-9
+        xdt = pyrng.choice(dbl)
+        return dict(
+            kind=kind, R=enc(R), L=enc(L), X=enc(rand_arr(rs, (n, m), xdt)), x=enc(rand_arr(rs, (n,), xdt)),
+            X2=enc(rand_arr(rs, (m, n), xdt)), A=enc(rand_arr(rs, (n, n), pyrng.choice(dbl))),
+            word="".join(pyrng.choice("THC") for _ in range(pyrng.randint(0, 8))), sparse=pyrng.random() < 0.5,
+        )
     return dict(
         kind=kind, R=enc(R), L=enc(L), X=enc(rand_arr(rs, (n, m), xdt)), x=enc(rand_arr(rs, (n,), xdt)),
         X2=enc(rand_arr(rs, (m, n), xdt)), A=enc(rand_arr(rs, (n, n), pyrng.choice(DTYPES))),
@@ -83,6 +116,8 @@ def evaluate(inp):
     scale = 1 + float(np.abs(D).max()) ** 2 * (1 + float(np.abs(A).max()))
     single = any(np.dtype(inp[k]["dtype"]).itemsize <= (8 if "complex" in inp[k]["dtype"] else 4) and inp[k]["dtype"] != "int64" for k in ("R", "L", "X", "A") if inp[k] is not None)
     tol = (2e-4 if single else 1e-10) * scale * n
+    if str(inp.get("kind", "")).startswith("near"):
+        tol = min(tol, 1e-9)  # small dyadic data: everything is computed essentially exactly
     fails = []
 
     def chk(label, fn, ref):
@@ -117,6 +152,13 @@ def evaluate(inp):
     chk("P@eye", lambda: P @ np.eye(n), D)
     if tuple(P.shape) != (n, n):
         fails.append("shape %s != (%d, %d)" % (P.shape, n, n))
+    # P.H may be P itself only when the left vectors ARE the right vectors (same values)
+    same_vectors = L is None or (L.shape == R.shape and np.array_equal(L, R))
+    try:
+        if (P.H is P) != same_vectors:
+            fails.append("P.H is P: %s, although the left vectors %s the right vectors" % (P.H is P, "equal" if same_vectors else "differ from"))
+    except Exception as e:
+        fails.append("P.H raised %s: %s" % (type(e).__name__, e))
     if np.dtype(P.dtype) != np.result_type(R.dtype, Leff.dtype) and not (L is not None and np.array_equal(L, R) and np.dtype(P.dtype) == R.dtype):
         fails.append("dtype %s is not the result type of %s and %s" % (P.dtype, R.dtype, Leff.dtype))
     # words
@@ -143,7 +185,7 @@ def evaluate(inp):
     except Exception as e:
         fails.append("P@A@P raised %s: %s" % (type(e).__name__, e))
     # idempotency when L^H R = 1
-    if R.shape[1] and np.allclose(Leff.astype(wide).conj().T @ R.astype(wide), np.eye(R.shape[1]), atol=1e-6 if single else 1e-12):
+    if R.shape[1] and np.allclose(Leff.astype(wide).conj().T @ R.astype(wide), np.eye(R.shape[1]), rtol=0, atol=1e-6 if single else 1e-12):
         chk("P@(P@X) (idempotent)", lambda: P @ (P @ X), D @ Xw)
     return fails
 
